@@ -137,3 +137,10 @@ MINMAX_RULES = [
     (re.compile(r'\b([A-Za-z_][A-Za-z0-9_.]*)\.min\(((?:[^()]|\([^()]*\))*)\)'), r'vmin(\1, \2)', None, 'R12-Ord::min'),
     (re.compile(r'\b([A-Za-z_][A-Za-z0-9_.]*)\.max\(((?:[^()]|\([^()]*\))*)\)'), r'vmax(\1, \2)', None, 'R12-Ord::max'),
 ]
+
+
+# R-ALLOC: explicit allocation requests in reader code carry a constant bound (prelude/alloc.rs)
+ALLOC_RULES = [
+    (re.compile(r'vec!\[([^;\]]+);\s*([^\]]+)\]'), r'vec_filled(\1, \2)', None, 'R-ALLOC vec![x; n]'),
+    (re.compile(r'Vec::(?:<([^>]*)>::)?with_capacity\('), lambda m: ('vec_with_capacity_bounded::<%s>(' % m.group(1)) if m.group(1) else 'vec_with_capacity_bounded(', None, 'R-ALLOC Vec::with_capacity'),
+]
